@@ -169,7 +169,9 @@ PROPS["C08"] = {
     "module": "PropC08",
     "theorems": ["C08_container_invariant", "C08_detection_results_ranked", "C08_dominant_first", "C08_dominated_last",
                  "C08_get_best_first", "C08_prefers_is_two_sided", "C08_f32_order_total", "C08_sort_is_permutation",
-                 "C08_prefers_is_two_sided_binary32", "C08_cmp_laws_hold_for_binary32"],
+                 "C08_prefers_is_two_sided_binary32", "C08_cmp_laws_hold_for_binary32",
+                 "C08_no_adjacent_inversion", "C08_detection_no_adjacent_inversion", "C08_sort_no_adjacent_inversion",
+                 "C08_detection_no_adjacent_inversion_binary32"],
     "model_targets": ["Model/Matches.vo"],
     "runs": [{"level": "container", "args_quick": ["--n", "500"], "args_thorough": ["--n", "6000"]},
              detect_run("C08", 150, 3000)],
